@@ -31,6 +31,65 @@ const (
 	ekCount
 )
 
+// tagsNamedLikeCarriers renames every tag to the name of the first service that carries it (tags and services are different
+// name spaces: `!tagged listener` and `@listener` may both exist). ok=false: a service would carry the same tag twice.
+func tagsNamedLikeCarriers(c *cfg.Config) (*cfg.Config, bool) {
+	n := c.Clone()
+	to := map[string]string{}
+	for _, s := range n.Services {
+		for _, t := range s.Tags {
+			if _, seen := to[t.Name]; !seen {
+				to[t.Name] = s.Name
+			}
+		}
+	}
+	if len(to) == 0 {
+		return &n, false
+	}
+	ren := func(v cfg.Val) cfg.Val {
+		if v.Kind == "str" && strings.HasPrefix(v.S, "!tagged ") {
+			if nn, ok := to[strings.TrimPrefix(v.S, "!tagged ")]; ok {
+				return cfg.Str("!tagged " + nn)
+			}
+		}
+		return v
+	}
+	for i := range n.Services {
+		s := &n.Services[i]
+		seen := map[string]bool{}
+		for k := range s.Tags {
+			if nn, ok := to[s.Tags[k].Name]; ok {
+				s.Tags[k].Name = nn
+			}
+			if seen[s.Tags[k].Name] {
+				return &n, false
+			}
+			seen[s.Tags[k].Name] = true
+		}
+		for k := range s.Args {
+			s.Args[k] = ren(s.Args[k])
+		}
+		for k := range s.Fields {
+			s.Fields[k].V = ren(s.Fields[k].V)
+		}
+		for k := range s.Calls {
+			for a := range s.Calls[k].Args {
+				s.Calls[k].Args[a] = ren(s.Calls[k].Args[a])
+			}
+		}
+	}
+	for i := range n.Decorators {
+		d := &n.Decorators[i]
+		if nn, ok := to[d.Tag]; ok {
+			d.Tag = nn
+		}
+		for a := range d.Args {
+			d.Args[a] = ren(d.Args[a])
+		}
+	}
+	return &n, true
+}
+
 // scopeGraphConfig builds the configuration for n services, edge kinds ek[i][j] (i<j) and scopes sc[i].
 func scopeGraphConfig(n int, ek [][]int, sc []string) *cfg.Config {
 	c := &cfg.Config{Meta: cfg.Meta{Pkg: cfg.P("gen"), Imports: []cfg.KS{{K: "pa", V: "fixt/pa"}}}}
@@ -189,6 +248,12 @@ func checkC05(c *Ctx) error {
 				}
 				conf := scopeGraphConfig(n, ek, sc)
 				jobs = append(jobs, job{conf, fmt.Sprintf("n%d/e%d/s%d", n, e, s)})
+				// the same structure with every tag named like the service that carries it
+				if (e+2*s)%7 == 3 {
+					if tw, ok := tagsNamedLikeCarriers(conf); ok {
+						jobs = append(jobs, job{tw, fmt.Sprintf("n%d/e%d/s%d/tags-named-like-services", n, e, s)})
+					}
+				}
 				// the same structure with an undefined dependency next to the real ones (sorting before / after every
 				// service name); run with --ignore-missing-services, the scope verdict must not change
 				if (e+s)%5 == 0 && n >= 2 {
